@@ -180,14 +180,16 @@ impl Edge {
 
         self.verifying_key = signing_key.export_verifying_key();
 
-        let size = self.len();
-        if size > MAX_EDGE_LENTGH {
-            return Err(Error::EdgeTooBig(size, MAX_EDGE_LENTGH));
-        }
         let hash = self.hash();
 
         let signature = signing_key.sign(hash.as_bytes());
         self.signature = signature;
+
+        //the size includes the signature, as in verify()
+        let size = self.len();
+        if size > MAX_EDGE_LENTGH {
+            return Err(Error::EdgeTooBig(size, MAX_EDGE_LENTGH));
+        }
 
         Ok(())
     }
